@@ -273,16 +273,16 @@ func enumC06(env *engine.Env, yield func(any) bool) {
 				}
 			}
 		}
-		if cc.comp == "" {
+		if cc.comp == "" || env.Thorough() {
 			var names []string
 			for r := range refs {
 				names = append(names, r)
 			}
 			sortStrings(names)
 			for _, r := range names {
-				shapes := []string{"missing", "dangling", "directory"}
+				shapes := []string{"missing", "dangling", "loop", "directory"}
 				if strings.HasPrefix(r, "content:") {
-					shapes = shapes[:2]
+					shapes = shapes[:3]
 				}
 				if r == "content:tree" {
 					shapes = shapes[:1] // a tree whose source is a symlink has no documented meaning
@@ -380,6 +380,8 @@ func checkC06(env *engine.Env, ci any) engine.Outcome {
 		switch c.Shape {
 		case "dangling":
 			os.Symlink(p+".nowhere", p)
+		case "loop":
+			os.Symlink(filepath.Base(p), p) // a symlink to itself: ELOOP
 		case "directory":
 			os.Mkdir(p, 0o755)
 		}
